@@ -233,7 +233,7 @@ CLAIMS = {
         "C12_incremental_step_exact (extracting one more incremental over a correctly restored chain yields exactly the "
         "collection at incremental time; the snapshot clause is what fix b28ccd9 established), C12_altered_chain_refused "
         "(refused before the clear, whatever the target/confirmation), C12_no_clear_without_confirmation, "
-        "C12_prune_keeps_ancestors / _pruned_iff_not_kept / _retained_kept (every timeline, policy, clock), "
+        "C12_prune_keeps_ancestors / _prune_keeps_whole_chain (ancestry of any depth, by induction over parent links) / _pruned_iff_not_kept / _retained_kept (every timeline, policy, clock), "
         "C12_pitr_starts_at_full_before. Tie: random histories with full/incremental backups, ticks incl. same-second, "
         "restores into empty/dirty targets, PITR, pruning, structural archive/metadata damage: model vs real archive member "
         "lists, metadata, restore outcome (real strict recover on the restored directory), prune decisions; oracle: restored "
